@@ -209,4 +209,24 @@ theorem buildHalton_spec {N : Nat} {bounds : List (Rat × Rat)} {X : List (List 
   have := constructDf_entry hX (he i j p hi hp) hb
   rw [this, affine, rabs_eq]
 
+/-! ## the bases loop succeeds (up to the second sieve round) -/
+
+
+theorem primesBelow_1010_length : (primesBelow 1010).length = 169 := by decide +kernel
+
+theorem haltonBases_defined_169 {dim : Nat} (h : dim ≤ 169) : ∃ l, haltonBases dim = some l := by
+  unfold haltonBases
+  rw [basesLoop]
+  split
+  · exact ⟨_, rfl⟩
+  · rename_i h1
+    cases dim with
+    | zero => simp at h1
+    | succ d =>
+      rw [basesLoop]
+      have : ((primesBelow (10 + 1000)).take (d + 1)).length = d + 1 := by
+        rw [List.length_take, show 10 + 1000 = 1010 from rfl, primesBelow_1010_length]; omega
+      simp only [this, beq_self_eq_true, if_true]
+      exact ⟨_, rfl⟩
+
 end Artap.Sampling
